@@ -14,7 +14,7 @@ patch = sys.argv[3] if len(sys.argv) > 3 and not sys.argv[3].startswith("checks=
 checks = [pid]
 for a in sys.argv[3:]:
     if a.startswith("checks="): checks = a[7:].split(",")
-sw = "/tmp/sw-confirm"
+sw = os.environ.get("SW", "/tmp/sw-confirm")
 # VERIF_ROOT: run the checks from a snapshot of /verif (git worktree) so that work in /verif can go on meanwhile;
 # the checks build the worker from the scratch worktree through VERIF_REPO, /repo itself is never touched.
 VROOT = os.environ.get("VERIF_ROOT", "/verif")
@@ -28,8 +28,24 @@ try:
     if rc != 0:
         meta["note"] = "patch does not apply to the repaired tree: " + out.strip()[:300]
         raise SystemExit
+    # FAST=1: a mutant that was confirmed before (suite passes, demo fails with / passes without the change) keeps those
+    # facts when the patch still applies and compiles; only the checks are run again
+    old = {}
+    if os.environ.get("FAST") and os.path.exists(f"/verif/seeded/{pid}-{x}/meta.json"):
+        old = json.load(open(f"/verif/seeded/{pid}-{x}/meta.json"))
+    fast = all(old.get(k) for k in ("existing_suite_passes_with_change", "demo_fails_with_change", "demo_passes_without_change"))
     rc, out = sh("go build ./... && go build -tags verif ./...", cwd=sw)
     meta["compiles"] = rc == 0
+    if fast and rc == 0:
+        for k in ("existing_suite_passes_with_change", "demo_fails_with_change", "demo_passes_without_change", "demo_cmd"):
+            if k in old: meta[k] = old[k]
+        meta["checks"] = {}
+        for c in checks:
+            rc, out = sh(f"./check {c} quick", cwd=VROOT)
+            v = [l for l in out.splitlines() if l.startswith("VIOLATION")]
+            keys = sorted(set(re.findall(r'"key": "([^"]+)"', " ".join(open(l.split("replay=")[1]).read() for l in v if os.path.exists(l.split("replay=")[1])))))
+            meta["checks"][c] = {"tier": "quick", "exit": rc, "violation_lines": len(v), "keys": keys[:6], "first": next((l.strip() for l in out.splitlines() if l.startswith("  ")), "")[:300]}
+        raise SystemExit
     rc, out = sh("unshare -n sh -c 'ip link set lo up; go test -vet=off -count=1 ./...'", cwd=sw)
     meta["existing_suite_passes_with_change"] = rc == 0 and "FAIL" not in out
     # demo files
